@@ -171,6 +171,20 @@ def ref_solve(snap):
         if res.status in (2, 3):
             return 'nonopt', np.nan, None
         # 1: limit, 4: unbounded-or-infeasible / other -> retry without presolve
+    if integ.any():
+        # HiGHS says "unbounded or infeasible" for some MILPs: decide by (i) an integer-feasible point exists and
+        # (ii) the LP relaxation is unbounded  =>  the MILP (rational data) is unbounded; (i) fails => infeasible
+        feas = opt.milp(np.zeros(len(lbi)), constraints=opt.LinearConstraint(A, bl, b),
+                        bounds=opt.Bounds(lbi, ubi), integrality=integ)
+        if feas.status == 2:
+            return 'nonopt', np.nan, None
+        if feas.status == 0:
+            eq = sense == 1
+            rel = opt.linprog(snap['obj'], A_ub=A[~eq] if (~eq).any() else None, b_ub=b[~eq] if (~eq).any() else None,
+                              A_eq=A[eq] if eq.any() else None, b_eq=b[eq] if eq.any() else None,
+                              bounds=list(zip(lbi, ubi)), method='highs', options={'presolve': False})
+            if rel.status == 3:
+                return 'nonopt', np.nan, None
     return 'fail', np.nan, None
 
 
